@@ -609,6 +609,27 @@ def run_real(spec):
                 group.makegateway("popen//id=m")
                 gw = group.makegateway("popen//via=m")
             sib = gw.remote_exec("for x in channel:\n    channel.send(x)\n")
+            # (0) a body that dies of an error it was handed on ANOTHER channel (a RemoteError it does not catch): for its own
+            # exec channel that is a failure like any other
+            fch = gw.remote_exec("other = channel.receive()\nchannel.send('listening')\nother.receive()\nchannel.send('not reached')\n")
+            passed = gw.newchannel()
+            fch.send(passed)
+            try:
+                said = fch.receive(20)
+                passed.close("an error handed over from the initiating side")
+                try:
+                    fch.waitclose(20)
+                    outcome = "waitclose returned"
+                except RemoteError as e:
+                    outcome = e
+                except BaseException as e:  # noqa
+                    outcome = f"{type(e).__name__}: {e}"
+            except BaseException as e:  # noqa
+                said, outcome = None, f"{type(e).__name__}: {e}"
+            res.count("bodies_killed_by_a_foreign_remoteerror")
+            if said != "listening" or not isinstance(outcome, RemoteError) or "an error handed over" not in str(outcome) or "Traceback" not in str(outcome):
+                res.violation(f"failure-not-reported-as-remoteerror:foreign-remoteerror:real-{spec['spec']}",
+                              f"body ended by an uncaught RemoteError from a channel it was given: said {said!r}, then {short(str(outcome), 300)}")
             # (1) body raises
             exc = rng.randrange(len(EXCS))
             m = lambda name, exc=exc: mech(name, exc, f"real-{spec['spec']}")
